@@ -118,9 +118,28 @@ func buildAlgSet[T comparable](c *core.Ctx, kind string, cm NamedCmp[T], members
 	// A set of this kind can be reached by other routes than New + Add: the
 	// variadic constructor, Select/Map of another set, an earlier algebra
 	// result, a load from JSON. All of them are legitimate operands.
-	route := r.Intn(7)
-	c.Count("operand-route:"+[]string{"add", "add", "constructor", "select", "map", "algebra-result", "json"}[route], 1)
+	route := r.Intn(8)
+	c.Count("operand-route:"+[]string{"add", "add", "constructor", "select", "map", "algebra-result", "json", "cleared-after-growth"}[route], 1)
 	switch route {
+	case 7:
+		// an earlier generation: the set once held thousands of other members,
+		// was cleared, and then got its present members (storage dropped or kept
+		// by Clear depending on how large it had grown)
+		if _, isInt := any(d.Alpha[0]).(int); isInt && len(members) < 64 {
+			keep := a.S.Values()
+			for i, n := 0, []int{1025, 1100, 4097, 5000}[r.Intn(4)]; i < n; i++ {
+				a.S.Add(d.Wide(r))
+			}
+			a.S.Clear()
+			if r.Bool() || len(keep) == 0 {
+				a.S.Add(keep...)
+			} else {
+				for _, v := range keep {
+					a.S.Add(v)
+				}
+			}
+		}
+		return a
 	case 2:
 		vs := a.S.Values()
 		switch kind {
@@ -336,6 +355,50 @@ func runHugeAlgebra(c *core.Ctx, j int) {
 	check("Difference(small, huge)", small.diff(big), len(smallM)-common, func(x int) bool { return !inBig(x) && inSmall(x) })
 	c.Begin(kind, "Union", "huge", "huge")
 	check("Union(huge, huge)", big.union(big), n, inBig)
+	// two large operands (thresholds on the SMALLER operand, work split across helpers)
+	m2 := 20000
+	other := mk()
+	c.Begin(kind, "Add", m2, "members of a second large operand")
+	for i := 0; i < m2; i++ {
+		other.S.Add(i*3 - 9000) // multiples of 3 from -9000: those that are even and in range are common
+	}
+	inOther := func(x int) bool { return (x+9000)%3 == 0 && x >= -9000 && x < m2*3-9000 }
+	commonBig, onlyOther := 0, 0
+	for i := 0; i < m2; i++ {
+		if inBig(i*3 - 9000) {
+			commonBig++
+		} else {
+			onlyOther++
+		}
+	}
+	checkL := func(op string, res *algSet[int], wantSize int, member func(int) bool) {
+		if sz := res.S.Size(); sz != wantSize {
+			c.Fail("members", "huge-count", "%s %s of a %d-member and a %d-member set: result has Size %d, want %d", kind, op, n, m2, sz, wantSize)
+		}
+		vs := res.S.Values()
+		if len(vs) != wantSize {
+			c.Fail("members", "huge-count", "%s %s of a %d-member and a %d-member set: result enumerates %d members, want %d", kind, op, n, m2, len(vs), wantSize)
+		}
+		for _, x := range vs {
+			if !member(x) {
+				c.Fail("members", "huge-extra", "%s %s of two large sets: result contains %d", kind, op, x)
+			}
+		}
+		if big.S.Size() != n || other.S.Size() != m2 {
+			c.Fail("side-effect", "huge-operand-changed", "%s %s changed an operand's size (%d, %d)", kind, op, big.S.Size(), other.S.Size())
+		}
+		c.Count("obs:huge-algebra", 1)
+	}
+	c.Begin(kind, "Intersection", "huge", "large")
+	checkL("Intersection(huge, large)", big.inter(other), commonBig, func(x int) bool { return inBig(x) && inOther(x) })
+	c.Begin(kind, "Intersection", "large", "huge")
+	checkL("Intersection(large, huge)", other.inter(big), commonBig, func(x int) bool { return inBig(x) && inOther(x) })
+	c.Begin(kind, "Union", "large", "huge")
+	checkL("Union(large, huge)", other.union(big), n+onlyOther, func(x int) bool { return inBig(x) || inOther(x) })
+	c.Begin(kind, "Difference", "large", "huge")
+	checkL("Difference(large, huge)", other.diff(big), onlyOther, func(x int) bool { return !inBig(x) && inOther(x) })
+	c.Begin(kind, "Difference", "huge", "large")
+	checkL("Difference(huge, large)", big.diff(other), n-commonBig, func(x int) bool { return inBig(x) && !inOther(x) })
 	c.Count("obs:huge-algebra-cases", 1)
 	c.Nontrivial()
 }
